@@ -960,6 +960,8 @@ from mlmverif.selfcheck import B, OK  # noqa: E402
 
 _F = 'utils/iter_utils.py'
 VARIANTS = [
+    OK('returned-values-through-a-local', 'utils/iter_utils.py',
+       "      self._returned.extend(values)\n", "      ended_with = values\n      self._returned.extend(ended_with)\n"),
     OK('stop-link-through-a-local', 'utils/iter_utils.py',
        "    result.stop_with(input_iterable)\n", "    upstream = input_iterable\n    result.stop_with(upstream)\n"),
     OK('put-through-a-local', 'utils/iter_utils.py',
